@@ -173,7 +173,7 @@ Proof.
   - rewrite scale_pos in S by exact P. injection S as <- <-.
     pose proof (pow2_gt0 e0 ltac:(lia)) as X.
     assert (E : 2 ^ la = 2 ^ 52 * (2 ^ e0 * 2 ^ Z.succ lb)).
-    { rewrite <- !Z.pow_add_r by lia. f_equal. lia. }
+    { rewrite <- !Z.pow_add_r by lia. f_equal; lia. }
     set (c := 2 ^ 52) in *. assert (0 < c) by (unfold c; apply pow2_gt0; lia).
     set (x := 2 ^ e0) in *. set (y := 2 ^ Z.succ lb) in *.
     split; [|nia].
@@ -183,7 +183,7 @@ Proof.
   - rewrite scale_nonpos in S by exact P. injection S as <- <-.
     pose proof (pow2_gt0 (- e0) ltac:(lia)) as X.
     assert (E : 2 ^ la * 2 ^ (- e0) = 2 ^ 52 * 2 ^ Z.succ lb).
-    { rewrite <- !Z.pow_add_r by lia. f_equal. lia. }
+    { rewrite <- !Z.pow_add_r by lia. f_equal; lia. }
     set (c := 2 ^ 52) in *. assert (0 < c) by (unfold c; apply pow2_gt0; lia).
     set (x := 2 ^ (- e0)) in *. set (y := 2 ^ Z.succ lb) in *.
     split; [|lia].
@@ -269,11 +269,11 @@ Proof.
       destruct (Z_le_gt_dec 0 e) as [Pe|Ne].
       * replace (Z.min 0 e) with 0 by lia. rewrite !Z.sub_0_r, Z.pow_0_r.
         assert (ER : R = 2 ^ e * P).
-        { unfold R, P. rewrite <- Z.pow_add_r by lia. f_equal. lia. }
+        { unfold R, P. rewrite <- Z.pow_add_r by lia. f_equal; lia. }
         pose proof (pow2_gt0 e Pe). rewrite ER in Hn. nia.
       * replace (Z.min 0 e) with e by lia. rewrite Z.sub_diag, Z.pow_0_r, Z.sub_0_l.
         assert (EP : P = 2 ^ (- e) * R).
-        { unfold R, P. rewrite <- Z.pow_add_r by lia. f_equal. lia. }
+        { unfold R, P. rewrite <- Z.pow_add_r by lia. f_equal; lia. }
         pose proof (pow2_gt0 (- e) ltac:(lia)). rewrite EP in Hn. nia.
   - (* the limit is finer than the quotient's grid: then it is below 2^52 ulps, hence below a/b *)
     assert (HE : EMIN < E) by lia.
@@ -292,7 +292,8 @@ Proof.
       destruct (Z_le_gt_dec 0 e) as [Pe|Ne].
       * replace (Z.min 0 e) with 0 by lia. rewrite !Z.sub_0_r, Z.pow_0_r.
         assert (EE : 2 ^ E = 2 ^ e * 2 * 2 ^ (E - e - 1)).
-        { change 2 with (2 ^ 1) at 3. rewrite <- !Z.pow_add_r by lia. f_equal. lia. }
+        { change (2 ^ e * 2 * 2 ^ (E - e - 1)) with (2 ^ e * 2 ^ 1 * 2 ^ (E - e - 1)).
+          rewrite <- !Z.pow_add_r by lia. f_equal; lia. }
         pose proof (pow2_gt0 e Pe). pose proof (pow2_gt0 (E - e - 1) ltac:(lia)).
         rewrite EE in N. set (x := 2 ^ e) in *. set (y := 2 ^ (E - e - 1)) in *.
         assert (m * b * x < 2 * c * b * x) by nia.
@@ -310,11 +311,91 @@ Proof.
     + rewrite scale_nonpos in S by lia. injection S as <- <-.
       replace (Z.min 0 e) with e by lia. rewrite Z.sub_diag, Z.pow_0_r, Z.sub_0_l.
       assert (EE : 2 ^ (- e) = 2 ^ (- E) * 2 * 2 ^ (E - e - 1)).
-      { change 2 with (2 ^ 1) at 4. rewrite <- !Z.pow_add_r by lia. f_equal. lia. }
+      { change (2 ^ (- E) * 2 * 2 ^ (E - e - 1)) with (2 ^ (- E) * 2 ^ 1 * 2 ^ (E - e - 1)).
+        rewrite <- !Z.pow_add_r by lia. f_equal; lia. }
       pose proof (pow2_gt0 (- E) ltac:(lia)). pose proof (pow2_gt0 (E - e - 1) ltac:(lia)).
       rewrite EE. set (x := 2 ^ (- E)) in *. set (y := 2 ^ (E - e - 1)) in *.
       assert (m * b < 2 * c * b) by nia.
       assert (2 * (c * b) <= 2 * (a * x)) by lia.
       assert (2 * (a * x) <= a * (x * 2 * y)) by nia.
       lia.
+Qed.
+
+(* ---------------------------------------------------------------- exactness for dyadic limits *)
+(* L = m * 2^e with e < 0 (e.g. 500.5 = 1001 * 2^-1), L >= 1, and a * 2^-e < 2^53 *)
+Lemma fdiv_exact_frac : forall a b m e,
+  0 < b -> 0 < a -> e < 0 -> 2 ^ (- e) <= m -> a * 2 ^ (- e) < 2 ^ 53 ->
+  exists q, fdiv a b = Some q /\ ratio_gt q (RFin m e) = exceedsb a b (RFin m e).
+Proof.
+  intros a b m e Hb Ha He Hm HaG.
+  set (G := 2 ^ (- e)) in *.
+  assert (HG : 0 < G) by (unfold G; apply pow2_gt0; lia).
+  pose proof (Z.log2_nonneg a) as Hla0. pose proof (Z.log2_nonneg b) as Hlb0.
+  destruct (Z.log2_spec a Ha) as [Ha1 _]. destruct (Z.log2_spec b Hb) as [_ Hb2].
+  assert (Hlag : Z.log2 a + - e < 53).
+  { apply (Z.pow_lt_mono_r_iff 2); [lia|lia|]. rewrite Z.pow_add_r by lia. fold G.
+    eapply Z.le_lt_trans; [|exact HaG]. nia. }
+  assert (Ha53 : a < 2 ^ 53) by nia.
+  set (E := fdiv_exp a b).
+  assert (HEe : E <= e).
+  { unfold E. destruct (fdiv_exp_cases a b) as [H|H]; rewrite H; lia. }
+  assert (HElb : Z.log2 b <= 52 -> E <= e - Z.log2 b).
+  { intro. unfold E. destruct (fdiv_exp_cases a b) as [H1|H1]; rewrite H1; lia. }
+  assert (HE0 : E <= 0) by lia.
+  set (R := 2 ^ (e - E)). assert (HR : 0 < R) by (unfold R; apply pow2_gt0; lia).
+  set (P := 2 ^ (- E)).
+  assert (EP : P = G * R).
+  { unfold P, G, R. rewrite <- Z.pow_add_r by lia. f_equal; lia. }
+  assert (HP : 1 <= P) by nia.
+  unfold fdiv. fold E. rewrite (scale_nonpos a b E HE0). fold P.
+  set (M := rne (a * P) b).
+  assert (HMub : M <= a * P + 1). { unfold M. apply rne_ub; nia. }
+  assert (Hov : dy_geb (M, E) (1, 1024) = false).
+  { destruct (dy_geb (M, E) (1, 1024)) eqn:Gv; [|reflexivity]. exfalso.
+    apply dy_geb_true in Gv. replace (Z.min E 1024) with E in Gv by lia.
+    rewrite Z.sub_diag, Z.pow_0_r in Gv.
+    replace (1024 - E) with (1024 + - E) in Gv by lia.
+    rewrite Z.pow_add_r in Gv by lia. fold P in Gv.
+    assert (2 ^ 53 < 2 ^ 1024) by (apply Z.pow_lt_mono_r; lia).
+    nia. }
+  rewrite Hov. eexists; split; [reflexivity|].
+  apply eq_true_iff_eq. unfold ratio_gt, exceedsb. rewrite !dy_gtb_true.
+  replace (Z.min E e) with E by lia. replace (Z.min 0 e) with e by lia.
+  rewrite !Z.sub_diag, Z.pow_0_r, Z.sub_0_l. fold R. fold G.
+  split.
+  - intro Gt. destruct (Z_lt_le_dec (m * b * 1) (a * G)) as [|Hle]; [lia|exfalso].
+    assert (M <= m * R). { unfold M. apply rne_le; [lia|]. rewrite EP. nia. }
+    lia.
+  - intro Gt.
+    assert (Hba : b < a) by nia.
+    assert (Hlb : Z.log2 b <= 52).
+    { assert (Z.log2 b < 53) by (apply Z.log2_lt_pow2; lia). lia. }
+    specialize (HElb Hlb).
+    assert (HbR : b < 2 * R).
+    { unfold R. replace (2 * 2 ^ (e - E)) with (2 ^ (Z.succ (e - E))) by (rewrite Z.pow_succ_r; lia).
+      eapply Z.lt_le_trans; [exact Hb2|]. apply Z.pow_le_mono_r; lia. }
+    assert (M >= m * R + 1). { unfold M. apply rne_ge; [lia|]. rewrite EP. nia. }
+    lia.
+Qed.
+
+Lemma fdiv_exact_gen : forall a b S L,
+  0 < b -> 0 < a <= S -> rl_exact S L = true ->
+  exists q, fdiv a b = Some q /\ ratio_gt q L = exceedsb a b L.
+Proof.
+  intros a b S L Hb Ha HL. destruct L as [m e| | |]; try discriminate. cbn [rl_exact] in HL.
+  destruct (0 <=? e) eqn:E0.
+  - apply fdiv_exact; [assumption|lia|]. cbn [rl_int_ge1]. lia.
+  - pose proof (pow2_gt0 (- e) ltac:(lia)).
+    apply fdiv_exact_frac; try lia. nia.
+Qed.
+
+Lemma exceedsb_zero_false_gen : forall b S L, 0 < b -> rl_exact S L = true -> exceedsb 0 b L = false.
+Proof.
+  intros b S L Hb HL. destruct L as [m e| | |]; try discriminate. cbn [rl_exact] in HL.
+  unfold exceedsb. destruct (dy_gtb (0, 0) (m * b, e)) eqn:D; [|reflexivity]. exfalso.
+  apply dy_gtb_true in D. rewrite Z.mul_0_l in D.
+  pose proof (pow2_gt0 (e - Z.min 0 e) ltac:(lia)).
+  destruct (0 <=? e) eqn:E0.
+  - assert (0 < m * b) by nia. nia.
+  - pose proof (pow2_gt0 (- e) ltac:(lia)). assert (0 < m * b) by nia. nia.
 Qed.
